@@ -175,6 +175,8 @@ def gen_step(rng, vals):
         ops += [('sum_axis', None, [i]), ('slice', None, [i]), ('setitem', None, [i]), ('concat_self', None, [i]),
                 ('stack', None, [i]), ('hstack', None, [i]), ('vstack', None, [i]), ('dstack', None, [i]), ('column_stack', None, [i]),
                 ('array_split', None, [i]), ('split', None, [i]), ('kron', None, [i]), ('outer', None, [i]), ('block', None, [i])]
+    if nd in (1, 2) and shape[0] >= 2:
+        ops += [('setitem_view', None, [i])] * 2
     if nd == 1:
         ops += [('dot', None, [i]), ('inner', None, [i]), ('diag', None, [i]), ('diagflat', None, [i]), ('matmul_l', None, [i]),
                 ('tensordot1', None, [i]), ('matmul_sel_l', None, [i]), ('matmul_sel_r1', None, [i])]
@@ -243,6 +245,29 @@ def gen_step(rng, vals):
                 b = m.Expression(b)          # item assignment is defined on Expressions (Variables refuse it)
             b[tup] = val
             return b
+        return name, f, ins
+    if name == 'setitem_view':
+        # use the array (a product reads all its coefficients), assign through a VIEW of it (a slice, the transpose, the reversal),
+        # use it again: as in numpy the view shares the cells, and whatever the array remembers of the first use must not show
+        c = rc(rng, [rng.randint(1, 2), shape[0]])
+        how = rng.choice(['tail', 'T', 'rev']) if nd == 2 else rng.choice(['tail', 'rev'])
+        val = float(rng.choice([0, 1, -3, 10]))
+        pos = rng.randrange(shape[0] - 1) if how == 'tail' else rng.randrange(shape[0])
+        col = rng.randrange(shape[1]) if nd == 2 else None
+
+        def f(m, a):
+            b = a[0].copy()
+            if m is not np:
+                b = m.Expression(b)
+            first = c @ b
+            v = b[1:] if how == 'tail' else (b.T if how == 'T' else b[::-1])
+            if nd == 1:
+                v[pos] = val
+            elif how == 'T':
+                v[col, pos] = val
+            else:
+                v[pos, col] = val
+            return [first, c @ b, b]
         return name, f, ins
     if name == 'concat_self':
         ax = rng.randrange(nd)
